@@ -242,10 +242,11 @@ impl Server {
         let rdb_engine = Arc::new(RdbEngine::new(config.rdb.clone()));
         
         // Create AOF engine with provided config
+        let mut restored_from_aof = false;
         let aof_engine = if config.aof.enabled {
             let engine = Arc::new(AofEngine::new(config.aof.clone()));
             engine.init()?;
-            engine.load(&storage)?;
+            restored_from_aof = engine.load(&storage)? > 0;
             Some(engine)
         } else {
             None
@@ -305,9 +306,12 @@ impl Server {
         slowlog.set_threshold_micros(config.monitoring.slowlog_threshold_micros);
         slowlog.set_max_len(config.monitoring.slowlog_max_len);
         
-        // Load existing RDB if available
-        if let Err(e) = rdb_engine.load(&storage) {
-            eprintln!("Failed to load RDB file: {}", e);
+        // Load existing RDB if available. A dataset rebuilt from the append-only file is the more
+        // recent one: a snapshot must not be laid over it
+        if !restored_from_aof {
+            if let Err(e) = rdb_engine.load(&storage) {
+                eprintln!("Failed to load RDB file: {}", e);
+            }
         }
         
         // Start background monitoring if auto-save is enabled
